@@ -424,3 +424,56 @@ pub fn from_cfb_two_modules_concrete() {
     let tb = [Tok::Lit(b'd'), Tok::Copy(1, 3)];
     check_project(image_real(&ta, &tb, false), b"ab", b"dddd");
 }
+
+fn spin(k: u8) { let mut n = 0u8; while n < k { n += 1; } assert!(n == k); }
+#[kani::proof]
+pub fn probe_find() {
+    let cfb = image_model(&[1,2,3], &[4,5], &[6,7,8], false);
+    let d = cfb.directories.iter().find(|d| &*d.name == "dir").unwrap();
+    spin(d.start as u8);
+}
+#[kani::proof]
+pub fn probe_minifat() {
+    let cfb = image_model(&[1,2,3], &[4,5], &[6,7,8], false);
+    spin(cfb.mini_fats[1] as u8);
+    spin(cfb.mini_sectors.data[65]);
+}
+#[kani::proof]
+pub fn probe_get() {
+    let mut cfb = image_model(&[1,2,3], &[4,5], &[6,7,8], false);
+    let mut r: &[u8] = &[];
+    let s = cfb.mini_sectors.get(1, &mut r).unwrap();
+    spin(s[1]);
+}
+#[kani::proof]
+pub fn probe_get_stream() {
+    let mut cfb = image_model(&[1,2,3], &[4,5], &[6,7,8], false);
+    let mut r: &[u8] = &[];
+    let s = cfb.get_stream("dir", &mut r).unwrap();
+    spin(s[1]);
+}
+#[kani::proof]
+pub fn probe_d1() {
+    let cfb = image_model(&[1,2,3], &[4,5], &[6,7,8], false);
+    spin(cfb.directories[2].start as u8);
+}
+#[kani::proof]
+pub fn probe_d2() {
+    let cfb = image_model(&[1,2,3], &[4,5], &[6,7,8], false);
+    spin(cfb.directories[2].name.len() as u8);
+}
+#[kani::proof]
+pub fn probe_d3() {
+    let cfb = image_model(&[1,2,3], &[4,5], &[6,7,8], false);
+    spin(cfb.directories[2].name.as_bytes()[0] - 90);
+}
+#[kani::proof]
+pub fn probe_d4() {
+    let cfb = image_model(&[1,2,3], &[4,5], &[6,7,8], false);
+    spin((&*cfb.directories[2].name == "dir") as u8);
+}
+#[kani::proof]
+pub fn probe_d5() {
+    let a = String::from("dir");
+    spin((&*a == "dir") as u8);
+}
